@@ -14,7 +14,8 @@
 (***************************************************************************)
 EXTENDS Naturals, Sequences, FiniteSets, TLC, SequencesExt, Json
 
-CONSTANTS Depth, AvgDeclares     \* AvgDeclares: "source" (pinned: join's avg/median copy the source field's type) | "number"
+CONSTANTS Depth, AvgDeclares,    \* AvgDeclares: "source" (pinned: join's avg/median copy the source field's type) | "number"
+          ChainSees                \* TRUE: a computed field of one add_computed_field call sees the fields the same call computed before it (fix: commit); FALSE: pinned
 
 F(n, t, tags) == [name |-> n, type |-> t, tags |-> tags]
 \* castability: which value tags a declared type admits (null always)
@@ -45,6 +46,8 @@ AcfType(res, op, srcs) ==
   ELSE IF op \in {"format", "join"} THEN "string"
   ELSE IF (\E i \in DOMAIN types : types[i] = "number") \/ op = "avg" THEN "number"
   ELSE IF Len(types) > 0 THEN types[1] ELSE "any"
+\* the lookup as the code does it: source names that are not in the field list are simply not there
+AcfTypeLoose(res, op, srcs) == AcfType(res, op, SelectSeq(srcs, LAMBDA n : Has(res, n)))
 AcfTags(res, op, srcs) ==
   LET anyNum == \E i \in DOMAIN srcs : "num" \in Get(res, srcs[i]).tags IN
   CASE op \in {"format", "join"} -> {"str"}
@@ -66,6 +69,7 @@ Steps == [k : {"add_field"}, t : {"integer", "string"}]
          \cup [k : {"acf"}, op : {"sum", "avg", "min", "multiply", "format", "join", "constant"}, src : {<<"a">>, <<"a", "c">>, <<"b">>}]
          \cup [k : {"delete_b", "select_a", "rename_a", "rename_swap", "set_type_a_number", "set_type_a_string", "filter", "sort", "dedup",
                     "duplicate", "delete_first", "concatenate", "concat_head", "concat_tail", "source", "unpivot_b", "find_replace_b", "validate"}]
+         \cup [k : {"acf_chain"}, first : {<<"a">>, <<"a", "c">>}, op2 : {"sum", "min", "format"}]       \* one call, two fields: cf = sum(first), then cf2 = op2(cf, a)
          \cup [k : {"join"}, agg : {"sum", "avg", "median", "count", "first", "array", "max"}, f : {"a", "b"}]
 
 First(pkg) == pkg[1]
@@ -82,6 +86,9 @@ Enabled(s, pkg) ==
   CASE s.k = "add_field" -> \A i \in DOMAIN pkg : ~Has(pkg[i], "z")
     [] s.k = "acf" -> /\ \A i \in DOMAIN pkg : (\A j \in DOMAIN s.src : Has(pkg[i], s.src[j])) /\ ~Has(pkg[i], "cf")
                       /\ s.op \in {"sum", "avg", "min", "multiply"} => \A i \in DOMAIN pkg : \A j \in DOMAIN s.src : Numeric(Get(pkg[i], s.src[j])) /\ Get(pkg[i], s.src[j]).tags \subseteq {"int", "num"}
+    [] s.k = "acf_chain" -> \A i \in DOMAIN pkg : /\ \A j \in DOMAIN s.first : /\ Has(pkg[i], s.first[j]) /\ Numeric(Get(pkg[i], s.first[j]))
+                                                                                  /\ Get(pkg[i], s.first[j]).tags \subseteq {"int", "num"}
+                                                    /\ ~Has(pkg[i], "cf") /\ ~Has(pkg[i], "cf2")
     [] s.k \in {"delete_b", "unpivot_b", "find_replace_b"} -> Has(First(pkg), "b") /\ Get(First(pkg), "b").type = "string" /\ ~Has(First(pkg), "k")
     [] s.k = "select_a" -> \A i \in DOMAIN pkg : Has(pkg[i], "a")
     [] s.k = "rename_a" -> Has(First(pkg), "a") /\ ~Has(First(pkg), "A")
@@ -108,6 +115,12 @@ Apply(s, pkg) ==
   CASE s.k = "add_field" -> MapRes(pkg, LAMBDA r : TRUE, LAMBDA r : AddField(r, F("z", s.t, IF s.t = "integer" THEN {"int"} ELSE {"str"})))
     [] s.k = "acf" -> LET src == IF s.op = "constant" THEN <<>> ELSE s.src IN      \* a constant has no source fields (type any)
                       MapRes(pkg, LAMBDA r : TRUE, LAMBDA r : AddField(r, F("cf", AcfType(r, s.op, src), AcfTags(r, s.op, src))))
+    [] s.k = "acf_chain" ->
+         MapRes(pkg, LAMBDA r : TRUE,
+                LAMBDA r : LET f1 == F("cf", AcfType(r, "sum", s.first), AcfTags(r, "sum", s.first))
+                               seen == IF ChainSees THEN AddField(r, f1) ELSE r
+                               f2 == F("cf2", AcfTypeLoose(seen, s.op2, <<"cf", "a">>), IF s.op2 = "format" THEN {"str"} ELSE f1.tags \cup {"int"})
+                           IN AddField(AddField(r, f1), f2))
     [] s.k = "delete_b" -> [pkg EXCEPT ![1].fields = SelectSeq(@, LAMBDA f : f.name # "b")]
     [] s.k = "select_a" -> MapRes(pkg, LAMBDA r : TRUE, LAMBDA r : [r EXCEPT !.fields = SelectSeq(@, LAMBDA f : f.name = "a")])
     [] s.k = "rename_a" -> [pkg EXCEPT ![1].fields = [i \in DOMAIN @ |-> IF @[i].name = "a" THEN [@[i] EXCEPT !.name = "A"] ELSE @[i]]]
